@@ -1,0 +1,34 @@
+//! Verification hook: make chosen io_uring opcodes look unsupported, so that the
+//! driver's thread-pool fallback (`OpCode::call_blocking`) can be exercised on a
+//! kernel that supports them. Compiled only with `--cfg compio_verif`; nothing
+//! is masked until a harness calls [`set`].
+
+use std::sync::atomic::{AtomicU64, Ordering};
+
+static MASK: [AtomicU64; 4] = [
+    AtomicU64::new(0),
+    AtomicU64::new(0),
+    AtomicU64::new(0),
+    AtomicU64::new(0),
+];
+
+/// Report the given io_uring opcodes as unsupported from now on (replaces the
+/// previous set).
+pub fn set(codes: &[u8]) {
+    clear();
+    for &c in codes {
+        MASK[(c / 64) as usize].fetch_or(1 << (c % 64), Ordering::SeqCst);
+    }
+}
+
+/// Mask nothing.
+pub fn clear() {
+    for m in &MASK {
+        m.store(0, Ordering::SeqCst);
+    }
+}
+
+/// Whether `code` is currently masked.
+pub fn is_masked(code: u8) -> bool {
+    MASK[(code / 64) as usize].load(Ordering::SeqCst) & (1 << (code % 64)) != 0
+}
